@@ -159,3 +159,29 @@ Proof.
   intros Hp [Hs Hu]. apply timedelta_roundtrip. unfold td_norm, validate_td; cbn [td_secs td_us].
   split; [exact Hs | apply round_to_lt; assumption].
 Qed.
+
+(* ---- Oracle / MySQL: a time is stored as an interval; the driver hands back a timedelta --------------------------------------- *)
+Lemma td_make_of_time h m s u : valid_time (mk_time h m s u) -> td_make h m s u = mk_td 0 (h * 3600 + m * 60 + s) u.
+Proof.
+  intros V. pose proof (valid_time_ranges _ V) as (Hh & Hm & Hs & Hu); cbn [th tmi ts tus] in *.
+  unfold td_make. replace (((h * 60 + m) * 60 + s) * 1000000 + u) with (0 * 86400000000 + (h * 3600 + m * 60 + s) * 1000000 + u) by lia.
+  apply td_of_us_norm; lia.
+Qed.
+
+Theorem interval_time_roundtrip t : valid_time t ->
+  interval_time_sql2py (td_days (ora_time_py2sql t)) (td_secs (ora_time_py2sql t)) (td_us (ora_time_py2sql t)) = Some t.
+Proof.
+  destruct t as [h m s u]. intros V. pose proof (valid_time_ranges _ V) as (Hh & Hm & Hs & Hu); cbn [th tmi ts tus] in *.
+  unfold ora_time_py2sql; cbn [th tmi ts tus]. rewrite (td_make_of_time _ _ _ _ V); cbn [td_days td_secs td_us].
+  unfold interval_time_sql2py, py_floordiv, py_mod.
+  set (a := 0 * 86400 + (h * 3600 + m * 60 + s)).
+  assert (Ha : a = h * 3600 + m * 60 + s) by (unfold a; lia).
+  replace (andb (0 <=? a) (a <=? 86400)) with true by lia.
+  replace (a / 60 / 60) with h by (rewrite Ha; euclid).
+  replace (a / 60 mod 60) with m by (rewrite Ha; euclid).
+  replace (a mod 60) with s by (rewrite Ha; euclid).
+  unfold time_checked. unfold valid_time in V. rewrite V. reflexivity.
+Qed.
+
+Theorem ora_bool_roundtrip b : ora_bool_sql2py (ora_bool_py2sql b) = b.
+Proof. destruct b; reflexivity. Qed.
